@@ -13,3 +13,4 @@ INVARIANT TypeOK
 INVARIANT GrantedOK
 PROPERTY NeverAfterUnsub
 PROPERTY UnknownChangesNothing
+PROPERTY SentOnlyWhileLive
